@@ -346,6 +346,19 @@ func checkC09(c *Check) {
 	}
 
 	// ---- R4
+	// the callback re-checks the session after the code exchange: between the blocking token-endpoint round trip and
+	// the token write lies a store operation on the same session id that fails when the session was removed in the
+	// meantime (ClearAuthorizationState on the Redis store: C09.R6) and whose failure ends the callback
+	if m.CbExchange != nil && m.CbClear != nil && m.CbSetToken != nil {
+		cb := m.CbSetToken.Parent()
+		passes := m.CbClear.Parent() == cb && m.CbExchange.Parent() == cb &&
+			reachAvoiding(m.CbExchange, nil, func(i ssa.Instruction) bool { return i == ssa.Instruction(m.CbSetToken) },
+				func(i ssa.Instruction) bool { return i == ssa.Instruction(m.CbClear) }) == nil &&
+			FactsOf(cb).At(m.CbSetToken).CallErrNil(m.CbClear, -1) && sameVal(callArgs(m.CbClear)[1], callArgs(m.CbSetToken)[1])
+		c.Obl(passes, "C09.R4", "callback-rechecks-session-after-exchange", P.Pos(m.CbSetToken.Pos()),
+			"exchange → ClearAuthorizationState(sid) err == nil → SetTokenResponse(sid): a session removed during the exchange is noticed before the tokens are written",
+			"no failing store operation on the session lies between the code exchange and the token write: a logout answered while the callback waits for the token endpoint is followed by a write that re-creates the session")
+	}
 	nR4 := 0
 	for _, fn := range R.HandlerFuncs {
 		if fn.Parent() != nil {
